@@ -262,7 +262,11 @@ fn step_apply(sim: &mut Sim, names: &KeyNames, st: &Value) -> Result<(Vec<Value>
 fn cmd_replay_edges(args: &[String]) -> i32 {
     let names = KeyNames::new();
     let text = std::fs::read_to_string(&args[0]).expect("cfg file");
-    let cap: u16 = args.get(3).map(|s| s.parse().unwrap()).unwrap_or(60000);
+    // the age cap comes from the largest number in the (possibly mutated) parser dump: clamp it to u16
+    let cap: u16 = args
+        .get(3)
+        .map(|s| s.parse::<u64>().unwrap().min(u16::MAX as u64) as u16)
+        .unwrap_or(60000);
     let f = std::io::BufReader::new(std::fs::File::open(&args[1]).expect("edges file"));
     install_panic_hook();
     let mut total = 0u64;
